@@ -119,7 +119,8 @@ def run(ctx):
     sets = []
     # small sets: EVERY subset of lost data files and lost volumes
     for nf, nv in ((1, 1), (2, 2), (3, 2), (3, 3), (4, 3)) + (((5, 4),) if thorough else ()):
-        sets.append(Set1(P1.gen_files(rng, nf, allow_big=False), nv))
+        # base names with further dots, a space, an inner ".par": the volume names are derived from the index name
+        sets.append(Set1(P1.gen_files(rng, nf, allow_big=False), nv, base=["arc", "photos.2024", "a b", "x.par.old", "dots.in.name", "UP.Case"][len(sets) % 6]))
     small = list(sets)
     # larger / bigger sets, sampled subsets
     sets.append(Set1(P1.gen_files(rng, 6), 9))
